@@ -28,6 +28,4 @@ def jobs(tier):
           'opm/input/eclipse/EclipseState/Runspec.cpp']
     out.append(dict(name='grid_section', src='h_section.cpp', defs={}, entry='h_grid_section', tus=ST, fp='real', loopmax=8000, maxsteps=400000000, timeout=900 if tier == 'quick' else 3600, opts=['--ctors'],
                     bounds='FieldProps(deck, grid) on a 3x2x2 grid, ACTNUM of 3 cells symbolic, all numbers of the GRID section symbolic reals'))
-    if os.environ.get('VERIF_C12_SPLIT'):
-        for w in (1, 2, 3): out.append(dict(out[-1] if w == 1 else out[-w], name='grid_section_w%d' % w, defs={'WHICH': w}))
     return out
